@@ -57,7 +57,7 @@ br_rsa_oaep_pad(const br_prng_class **rnd, const br_hash_class *dig,
 	 * Compute actual modulus length (in bytes).
 	 */
 	k = pk->nlen;
-	while (k > 0 && pk->n[k - 1] == 0) {
+	while (k > 0 && pk->n[pk->nlen - k] == 0) {
 		k --;
 	}
 
